@@ -523,6 +523,26 @@ func fixedCases() []Case {
 		add(Case{Issue: "both", State: st, Custom: "n", Time: "valid", Rev: "no", RA: true})
 		add(Case{Issue: "dbonly", State: st, D: true, Custom: "n", Time: "valid", Rev: "no", RA: true, Rekey: true})
 	}
+	// renew-token entry: every kind of token against every way the provisioner resolves, with and
+	// without RA information in the database record (the audience of an RA's token is not compared)
+	distinctToks := []string{"ok", "issp", "garbage", "badsig", "reuse", "sub", "exp", "aud", "iss"}
+	for _, tk := range distinctToks {
+		for _, is := range []string{"both", "dbonly", "badext+db"} {
+			for _, st := range []string{"present", "replaced", "uninit", "removed"} {
+				for _, ra := range []bool{false, true} {
+					add(Case{Issue: is, State: st, A: true, Custom: "n", Time: "valid", Rev: "no", Entry: "token", Tok: tk, RA: ra})
+				}
+			}
+		}
+		for _, is := range []string{"extonly", "none", "badext"} {
+			for _, st := range []string{"present", "removed", "base"} {
+				add(Case{Issue: is, State: st, Custom: "n", Time: "valid", Rev: "no", Entry: "token", Tok: tk})
+			}
+		}
+		add(Case{Issue: "both", State: "present", A: true, Custom: "n", Time: "expired", Rev: "no", Entry: "token", Tok: tk, RA: true})
+		add(Case{Issue: "both", State: "present", Custom: "a", Time: "nyv", Rev: "no", Entry: "token", Tok: tk, RA: true})
+		add(Case{Issue: "both", State: "present", Custom: "n", Time: "valid", Rev: "yes", Entry: "token", Tok: tk, RA: true})
+	}
 	for _, rv := range revs {
 		add(Case{Issue: "both", State: "present", Custom: "n", Time: "valid", Rev: rv})
 		add(Case{Issue: "none", State: "removed", Custom: "a", Time: "valid", Rev: rv, Rekey: true})
@@ -610,11 +630,26 @@ func main() {
 	// phase 1: issue everything; phase 2 (after the short-lived certificates have expired): renew
 	preps := make([]prepared, 0, len(cases))
 	needSleep := false
+	lateIssue := 0
 	for _, c := range cases {
-		preps = append(preps, w.issue(c))
+		pr := w.issue(c)
+		// a soon-to-expire certificate (NotAfter = now+1.5 s) cannot be signed when the process was
+		// descheduled for that long between computing "now" and the validity check: retry, and
+		// if the machine is too loaded give no verdict for the case rather than a wrong one
+		for try := 0; try < 3 && pr.err == "sign" && c.Time == "expired"; try++ {
+			pr = w.issue(c)
+		}
+		if pr.err == "sign" && c.Time == "expired" {
+			lateIssue++
+			continue
+		}
+		preps = append(preps, pr)
 		if c.Time == "expired" {
 			needSleep = true
 		}
+	}
+	if lateIssue > 0 {
+		fmt.Printf("skipped %d short-lived certificates that could not be issued in time\n", lateIssue)
 	}
 	if needSleep {
 		time.Sleep(3200 * time.Millisecond)
